@@ -333,6 +333,11 @@ func collidingKeys(n int) [][]byte {
 func runC19Filters(c *Ctx) {
 	keys := collidingKeys(10)
 	other := [][]byte{[]byte("id"), []byte("class"), []byte("x"), []byte(""), []byte("abcde"), []byte("data-x")}
+	// keys around the word sizes a length bitmap or a small fixed buffer would have: 31, 32, 33,
+	// 63, 64, 65, 127, 128, 129, 255, 256, 257 bytes, two different keys of each length
+	for _, n := range []int{31, 32, 33, 63, 64, 65, 127, 128, 129, 255, 256, 257} {
+		other = append(other, bytes.Repeat([]byte("a"), n), append(bytes.Repeat([]byte("a"), n-1), 'b'))
+	}
 	all := append(append([][]byte{}, keys...), other...)
 	for i, k := range all {
 		c.Case("BytesHashMod64", []string{hx(k)}, itoa(int(util.VerifBytesHash(k)%64)))
